@@ -438,3 +438,44 @@ def _nearest_loop(n):
             return p
         p = p.parent
     return None
+
+
+def ob_processor_args(ctx, res):
+    """C01-F5: what each processor hands to its per-value functions (value, next, chromosome length, chromosome id, own state)"""
+    sites = 0
+    for file, impls in ((WW, ["BigWigFullProcess", "BigWigNoZoomsProcess", "BigWigZoomsProcess"]), (BW, ["BigBedFullProcess", "BigBedNoZoomsProcess", "BigBedZoomsProcess"])):
+        for impl in impls:
+            fn = ctx.ast.fn(file, "do_process", impl=impl)
+            for c in walk_no_nested_fn(fn.body):
+                if not (c.k == "call" and up(c["func"]) in ("process_val", "process_val_zoom")):
+                    continue
+                callee = ctx.ast.fn(file, up(c["func"]))
+                sites += 1
+                bad = []
+                for (pn, pty), a in zip(callee.params, c["args"]):
+                    o = origin(fn, a)
+                    t = up(strip(a))
+                    want = None
+                    if pn == "current_val":
+                        want = o == "p1"
+                    elif pn == "next_val":
+                        want = o == "p2"
+                    elif pn == "chrom_length":
+                        want = o.endswith("length") or t == "length"
+                    elif pn == "chrom_id":
+                        want = o.endswith("chrom_id") or t == "chrom_id"
+                    elif pn == "chrom":
+                        want = o.endswith("chrom") or t == "chrom"
+                    elif pn == "item_start":
+                        want = o == "p1.start"
+                    elif pn == "item_end":
+                        want = o == "p1.end"
+                    elif pn in ("summary", "items", "overlap", "zoom_items", "options", "runtime", "ftx"):
+                        want = pn in o or pn in t
+                    if want is False:
+                        bad.append("%s <- `%s`" % (pn, t))
+                if bad:
+                    res.fail("processorArgs/%s/%s" % (impl, up(c["func"])), c, "%s::do_process passes the wrong value to %s: %s" % (impl, up(c["func"]), "; ".join(bad)))
+                else:
+                    res.ok(c, "%s -> %s: value, next, chromosome length/id and the processor's own state passed to the like-named parameters" % (impl, up(c["func"])))
+    res.count("sites", sites)
